@@ -323,7 +323,7 @@ func flip(raw []byte, byteIdx, bit int) []byte {
 func TestC07(t *testing.T) {
 	env := kit.GetEnv()
 	rep := kit.NewReport("C07", env)
-	rep.Rule = "per ping kind (hello req/resp, pong req/resp, error codes 0-4 + unknown, disconnect going-down/list, announce with 0 and 1 hop), produced by the real sender code of peer X in a fresh 6-router world: (a) every single-bit flip of every authenticated header byte (all except TTL/flow), the length fields and the signature/MAC, and one bit per body byte (thorough: all bits); (b) source rewritten to each other known identity, destination rewritten; (c) same ping re-built and sealed by another router claiming X's address; (c2) a relayed announcement whose delivering peer forges an inner hop record of a router the receiver already knows, with its own key embedded; (d) first-contact variants with header key right / wrong / for another address, the forged ones repeated three times (again as a hello and as the original kind); (e) replay of the exact frame after {nothing, a newer valid ping from X, a ping from Y, +31 s, 61 min of idle time + the session cleaner, a newer valid ping of each of the other kinds from X}; (f) the valid ping itself with its type-specific effect bound; snapshot = table + sessions(keys, MTU) + stored info/offline flags + connection verdicts; non-trivial = mutation hits an authenticated byte or the case must be rejected; states = distinct snapshots observed"
+	rep.Rule = "per ping kind (hello req/resp, pong req/resp, error codes 0-4 + unknown, disconnect going-down/list, announce with 0 and 1 hop), produced by the real sender code of peer X in a fresh 6-router world: (a) every single-bit flip of every authenticated header byte (all except TTL/flow), the length fields and the signature/MAC, and one bit per body byte (thorough: all bits), each alone and on a copy that follows the genuine ping; (b) source rewritten to each other known identity, destination rewritten; (c) same ping re-built and sealed by another router claiming X's address; (c2) a relayed announcement whose delivering peer forges an inner hop record of a router the receiver already knows, with its own key embedded; (d) first-contact variants with header key right / wrong / for another address, the forged ones repeated three times (again as a hello and as the original kind); (e) replay of the exact frame after {nothing, a newer valid ping from X, a ping from Y, +31 s, 61 min of idle time + the session cleaner, a newer valid ping of each of the other kinds from X}; (f) the valid ping itself with its type-specific effect bound; snapshot = table + sessions(keys, MTU) + stored info/offline flags + connection verdicts; non-trivial = mutation hits an authenticated byte or the case must be rejected; states = distinct snapshots observed"
 	rep.Assumptions = []string{
 		"state is observed through exported accessors plus the VerifEntries hook; pending-ping bookkeeping (active hello/pong ids, error rate limiter) is not part of the statement's state list",
 		"disconnect pings are addressed to the router itself: as emitted by the real sender (unicast type to the multicast address) they are never dispatched to the disconnect handler at all",
@@ -434,6 +434,26 @@ func TestC07(t *testing.T) {
 			pb := pb
 			o := run(k, func(tw *tworld, raw []byte) ([]byte, *kit.Node) { return flip(raw, pb[0], pb[1]), nil }, nil)
 			mustUnchanged(k, fmt.Sprintf("bitflip/%s", region(pb[0], msgStart, aStart)), o, map[string]any{"kind": k.name, "byte": pb[0], "bit": pb[1]})
+		}
+		// (a2) the same bit flips on a copy that follows the genuine ping (same sequence
+		// number / time as a frame the receiver has just accepted).
+		for _, pb := range positions {
+			if !mine() {
+				continue
+			}
+			pb := pb
+			o := run(k, func(tw *tworld, raw []byte) ([]byte, *kit.Node) { return flip(raw, pb[0], pb[1]), nil }, func(tw *tworld, raw []byte) {
+				first := tw.x
+				switch k.sender {
+				case "Y":
+					first = tw.y
+				case "Z":
+					first = tw.z
+				}
+				tw.w.Inject(first, tw.r, raw)
+				tw.w.InFlight = nil
+			})
+			mustUnchanged(k, fmt.Sprintf("bitflip-after-genuine/%s", region(pb[0], msgStart, aStart)), o, map[string]any{"kind": k.name, "byte": pb[0], "bit": pb[1], "after_genuine": true})
 		}
 		// (b) re-addressing.
 		for _, who := range []int{iY, iZ, iO, iU} {
